@@ -16,7 +16,7 @@ let rec pairs = function a :: b :: r -> (nz a, nz b) :: pairs r | _ -> []
 type elem = Nodef | Mop of string * op        (* kind token, model op *)
 
 type case = {
-  mix : string; fccap : nat; epoch0 : n; vals0 : (n * n) list; pol : ((n * n) * (n * n) list) list;
+  mix : string; fccap : nat; epoch0 : n; listen_mode : int; listen_n : int; vals0 : (n * n) list; pol : ((n * n) * (n * n) list) list;
   main : elem list; alt : elem list option;
   main_toks : string list list; alt_toks : string list list;
   name_of : (string, int) Hashtbl.t; id_of : (int, n) Hashtbl.t;
@@ -26,7 +26,7 @@ let alt_groups (mix : string) (groups : string list list) : string list list opt
   let kind g = match g with k :: _ -> k | [] -> "" in
   match mix with
   | "C07" -> Some (List.filter (fun g -> kind g <> "b" && kind g <> "X" && kind g <> "Y") groups)
-  | "C08" -> Some (List.filter (fun g -> kind g <> "R") groups)
+  | "C08" -> Some (List.filter (fun g -> kind g <> "R" && kind g <> "r") groups)
   | "C09" ->
     let rec split pre = function
       | [] -> None
@@ -46,8 +46,11 @@ let parse (inp : string list) : case =
     | _ -> "?", nat_of_int 200, nz "1") in
   let name_of = Hashtbl.create 64 and id_of = Hashtbl.create 64 in
   let vals0 = ref [] and pol = ref [] in
+  let lmode = ref 0 and ln = ref 0 in
   let body = List.filter (fun g -> match g with
     | [] -> false
+    | ["L"; m; k] -> lmode := int_of_string m; ln := int_of_string k; false
+    | "L" :: _ -> false
     | "V" :: r -> vals0 := pairs r; false
     | "S" :: ep :: blk :: r -> pol := ((nz ep, nz blk), pairs r) :: !pol; false
     | "S" :: _ -> false
@@ -97,6 +100,7 @@ let parse (inp : string list) : case =
          | Some e -> push g (Mop (k, OpB e))
          | None -> push g Nodef)
       | ["R"] -> push g (Mop ("R", OpR))
+      | ["r"] -> push g (Mop ("R", OpR))
       | "RESET" :: ep :: r -> push g (Mop ("RESET", OpReset (nz ep, pairs r)))
       | ["M"; n] ->
         (match Hashtbl.find_opt lid (int_of_string n) with
@@ -114,7 +118,7 @@ let parse (inp : string list) : case =
   let alt, alt_toks = (match alt_groups mix body with
     | Some ag -> let a, t = elems_of ag in (Some a, t)
     | None -> (None, [])) in
-  { mix; fccap; epoch0; vals0 = !vals0; pol = List.rev !pol; main; alt; main_toks; alt_toks; name_of; id_of }
+  { mix; fccap; epoch0; listen_mode = !lmode; listen_n = !ln; vals0 = !vals0; pol = List.rev !pol; main; alt; main_toks; alt_toks; name_of; id_of }
 
 (* ---------- printing model observations ---------- *)
 let err_tok = function
@@ -129,10 +133,13 @@ let is_fatal = function EWrongFrame -> false | _ -> true
 
 let evname c id = match Hashtbl.find_opt c.name_of (Z.to_string (z_of_n id)) with
   | Some n -> string_of_int n | None -> "?" ^ Z.to_string (z_of_n id)
+let listens mode n k = match mode with 1 -> k >= n | 2 -> k mod 2 = 1 | _ -> true
+let block_counter = ref 0      (* blocks seen so far in the run being printed (application-lifetime counter) *)
 let block_toks c (b : block) =
+  incr block_counter;
   [ "A" ^ evname c b.b_atropos;
     "c" ^ String.concat "," (List.map tok_of_n b.b_cheaters);
-    "d" ^ String.concat "," (List.map (evname c) b.b_delivered);
+    (if listens c.listen_mode c.listen_n !block_counter then "d" ^ String.concat "," (List.map (evname c) b.b_delivered) else "dX");
     (match b.b_seal with
      | None -> "-"
      | Some v -> "S" ^ String.concat "," (List.map (fun (i, w) -> tok_of_n i ^ ":" ^ tok_of_n w) v)) ]
@@ -161,6 +168,7 @@ let obs_toks c (o : obs) : string list * bool (*dead*) =
 
 (* run the model over one element list; returns one token group per element that produced output *)
 let model_run c (smp : n -> n list option) (els : elem list) : string list list =
+  block_counter := 0;
   let ops = List.filter_map (function Mop (_, o) -> Some o | Nodef -> None) els in
   let obs = ref (Model.run c.fccap c.pol smp (start c.epoch0 c.vals0) ops) in
   let dead = ref false in
@@ -187,7 +195,7 @@ let rec parse_blocks c toks : block list * string list =
                                      && String.length ch > 0 && ch.[0] = 'c' && String.length dl > 0 && dl.[0] = 'd' ->
     let b = { b_frame = N0; b_atropos = id_of_name c (tl1 a);
               b_cheaters = List.map nz (split_commas (tl1 ch));
-              b_delivered = List.map (id_of_name c) (split_commas (tl1 dl));
+              b_delivered = (if dl = "dX" then [n_of_z (zpow2 256)] else List.map (id_of_name c) (split_commas (tl1 dl)));
               b_seal = (if seal = "-" then None else
                 Some (List.map (fun p -> match String.split_on_char ':' p with
                                   | [i; w] -> (nz i, nz w) | _ -> (N0, N0)) (split_commas (tl1 seal)))) } in
